@@ -84,6 +84,7 @@ type job struct {
 	RemovedCwd bool
 	Allow      []int // exit codes the PROGRAM asks for (EXIT n, TRIGGER ERROR n)
 	Timeout    time.Duration
+	SmallLimit bool   // run under smallLimitKB instead of the 3 GB limit (reproducers of endless nesting)
 	BlockOK    bool   // a timeout is the documented behaviour of the OS object (FIFO without writer), not a law
 	Probe      string // "json_rect": stdout must be a JSON array of objects with identical key lists
 	InProc     *inproc
@@ -141,6 +142,34 @@ const hangBound = 20 * time.Second
 
 const limitSh = "ulimit -v 3000000; "
 
+// smallLimitKB: an address-space limit just above what the csvq binary needs to start (probed at the start of a
+// run): under it a program that nests without end meets the Go runtime's fatal failure within a second or two
+var smallLimitKB = 1000000
+
+func (j *job) limit() string {
+	if j.SmallLimit {
+		return fmt.Sprintf("ulimit -v %d; ", smallLimitKB)
+	}
+	return limitSh
+}
+
+func probeSmallLimit() {
+	for _, kb := range []int{800000, 1000000, 1500000, 2000000} {
+		ok := true
+		for t := 0; t < 3 && ok; t++ {
+			cmd := exec.Command("/bin/sh", "-c", fmt.Sprintf("ulimit -v %d; ", kb)+`exec "$@"`, "sh", bin, "SELECT 1")
+			cmd.Env = []string{"HOME=" + scratch, "PATH=/usr/bin:/bin"}
+			cmd.Dir = scratch
+			ok = cmd.Run() == nil
+		}
+		if ok {
+			smallLimitKB = kb
+			return
+		}
+	}
+	smallLimitKB = 3000000
+}
+
 var (
 	bin     string
 	scratch string
@@ -193,11 +222,11 @@ func execJob(j *job) result {
 	if j.RemovedCwd {
 		gone := filepath.Join(d, "gone")
 		must(os.Mkdir(gone, 0o755))
-		sh := limitSh + `cd "$1" && rmdir "$1" && shift && exec "$@"`
+		sh := j.limit() + `cd "$1" && rmdir "$1" && shift && exec "$@"`
 		cmd = exec.Command("/bin/sh", append([]string{"-c", sh, "sh", gone, bin}, args...)...)
 		cmd.Dir = d
 	} else {
-		cmd = exec.Command("/bin/sh", append([]string{"-c", limitSh + `exec "$@"`, "sh", bin}, args...)...)
+		cmd = exec.Command("/bin/sh", append([]string{"-c", j.limit() + `exec "$@"`, "sh", bin}, args...)...)
 		cmd.Dir = d
 	}
 	cmd.Env = []string{"HOME=" + d, "PATH=/usr/bin:/bin", "TZ=UTC", "LANG=C"}
@@ -331,6 +360,10 @@ func classify(j *job, r result) []string {
 var reHugeInt = regexp.MustCompile(`\d{10,}`)
 var rePlaceholder = regexp.MustCompile(`%[-+0# ]*\d*(\.\d*)?[a-zA-Z]`)
 var reUnconditionalJoin = regexp.MustCompile("(?i)\\bFROM\\s+[^\\s,]+(\\s+\\w+)?\\s*,|CROSS\\s+JOIN")
+var reSourceStmt = regexp.MustCompile(`(?i)(^|;)\s*SOURCE\b`)
+
+// a frame offset is clamped to the partition: `9223372036854775807 FOLLOWING` names no amount of work
+var reFrameOffset = regexp.MustCompile(`(?i)\d+\s+(PRECEDING|FOLLOWING)`)
 var reLargeQuantity = regexp.MustCompile(`\d{7,}|\d[eE]\+?\d{1,3}\b`)
 
 // tagKind: the first tag of the job without its value part ("grammar:delimiter-positions s[]" → "grammar:delimiter-positions"),
@@ -352,7 +385,7 @@ func hugeRequest(j *job) bool {
 	for _, a := range j.argv() {
 		// a width or precision inside a format placeholder is not a quantity of data: `%99999999999d` is a
 		// 13-character string, and a formatter that allocates what it says is the defect
-		if len(a) > 3000 || reLargeQuantity.MatchString(rePlaceholder.ReplaceAllString(a, "%")) {
+		if len(a) > 3000 || reLargeQuantity.MatchString(reFrameOffset.ReplaceAllString(rePlaceholder.ReplaceAllString(a, "%"), "n $1")) {
 			return true
 		}
 	}
@@ -381,6 +414,26 @@ var reHugeFrame = regexp.MustCompile(`(?i)\b\d{10,}\s+(PRECEDING|FOLLOWING)`)
 // judge: the laws violated, and observations that are counted but are not violations of C19.
 func judge(j *job, r result) (laws []string, notes []string) {
 	out := r.all()
+	if strings.Contains(out, "fatal error: out of memory") || strings.Contains(out, "fatal error: stack overflow") || strings.Contains(out, "stack exceeds") {
+		// the Go runtime gave up while the STACK was growing: which construction nested without end is read off the
+		// goroutine dump, not off the generator's tags (any other runtime fatal keeps its own law name below)
+		nUDF := strings.Count(out, "query.(*UserDefinedFunction).Execute(")
+		nStmt := strings.Count(out, "query.(*Processor).ExecuteStatement(")
+		usesSource := false
+		for _, a := range j.argv() {
+			if a == "--source" || a == "-s" || reSourceStmt.MatchString(a) {
+				usesSource = true
+			}
+		}
+		switch {
+		case nUDF >= 5:
+			return []string{"runtime_fatal:udf_recursion"}, nil
+		case nStmt >= 10 && usesSource:
+			return []string{"runtime_fatal:source_nesting"}, nil
+		case j.SmallLimit:
+			return nil, []string{"observed:run_under_the_small_limit_did_not_show_the_nesting(not a law)"}
+		}
+	}
 	if strings.Contains(out, "out of memory") || strings.Contains(out, "cannot allocate memory") {
 		if hugeRequest(j) {
 			// the program asked for more memory than the harness allows a child (ulimit -v): resource exhaustion
@@ -636,6 +689,10 @@ func repro(j *job) string {
 	if j.HasStdin {
 		sb.WriteString("printf '" + printfEsc(j.Stdin) + "' | ")
 	}
+	if j.SmallLimit {
+		// without the limit the same program meets the runtime's own stack limit (1 GB) after 10-20 s or more
+		sb.WriteString(fmt.Sprintf("ulimit -v %d && ", smallLimitKB))
+	}
 	sb.WriteString("csvq")
 	for _, a := range j.argv() {
 		sb.WriteString(" " + shq(a))
@@ -828,6 +885,7 @@ func run(seed int64, n int, dir string, _ []string) {
 	must(os.MkdirAll(scratch, 0o755))
 	defer os.RemoveAll(scratch)
 
+	probeSmallLimit()
 	workers := runtime.NumCPU()
 	if workers > 32 {
 		workers = 32
@@ -897,6 +955,7 @@ func run(seed int64, n int, dir string, _ []string) {
 		}
 		if done == 0 {
 			jobs = append(jobs, corpusJobs()...)
+			jobs = append(jobs, knownFindingJobs()...)
 		}
 		// the deterministic grids: one slice per round (it rotates with seed + round; the rounds of a thorough run
 		// cover every slice several times), every kind of job of a grid in every slice
@@ -915,6 +974,8 @@ func run(seed int64, n int, dir string, _ []string) {
 		det(2, fsJobs(g))
 		det(4, clauseComboJobs())
 		det(5, outputCellJobs())
+		det(8, frameJobs())
+		det(5, jsonlQueryJobs())
 		jobs = append(jobs, modeAndLikeJobs()...)
 		det(6, accessPathJobs(g, 0, true))
 		det(6, sizeJobs(g, 0, true))
@@ -1010,6 +1071,9 @@ func run(seed int64, n int, dir string, _ []string) {
 				tries = 6 // which worker panics second depends on the schedule
 			}
 			budget := 300
+			if strings.HasPrefix(l, "runtime_fatal:") {
+				budget = 0 // deterministic reproducers of known constructions
+			}
 			if strings.HasPrefix(l, "memory:") {
 				budget = 6 // every run fills the address-space limit first
 			}
